@@ -61,7 +61,11 @@ Case(fmt, pkgs, regs) ==
    \* forward lookups the replayer performs: address class -> expected directory (or none)
    lookups |-> { [a |-> AddrOf(a), dir |-> (IF DirFor(pkgs, a) = "none" THEN "" ELSE DirOf(DirFor(pkgs, a))), present |-> DirFor(pkgs, a) # "none"] : a \in {"A", "B", "B2"} }]
 
-PkgLists == SeqsUpTo({ Pkg(a, d) : a \in AddrClasses, d \in DirClasses }, MaxPkgs)
+\* all lists of up to two entries over every class; lists of three entries (MaxPkgs = 3) over the classes that can
+\* alias, shadow or re-point one another (the full cube exceeds what TLC enumerates as one set)
+PkgSmall == { Pkg(a, d) : a \in {"A", "B", "sub"}, d \in {"d1", "D1", "d2", "dotdot", "ddsp", "manifest"} }
+PkgLists == SeqsUpTo({ Pkg(a, d) : a \in AddrClasses, d \in DirClasses }, IF MaxPkgs > 2 THEN 2 ELSE MaxPkgs)
+            \cup (IF MaxPkgs > 2 THEN [1..3 -> PkgSmall] ELSE {})
 RegLists == { <<>> } \cup { <<RegEntry(a, v, s)>> : a \in {"ok", "sub", "bad"}, v \in {"ok", "bad"}, s \in {"A", "sub", "bad"} }
 
 VARIABLES phase, part
